@@ -91,7 +91,7 @@ def main(chk, tier, seed):
     chk.rule = RULE
     chk.assumptions = ["bounded progress: budget 60*k*(#links+#computations+1)+200 scheduler steps; local search with a cycle bound is finite",
                        "per-channel FIFO delivery, free start order"]
-    n = 2400 if tier == "quick" else 24000
+    n = 2400 if tier == "quick" else 100000
     common.run_chunked(chk, "c07", n, nchunks=16 if tier == "quick" else 64,
                        job_extra={"nsched": 3 if tier == "quick" else 4}, timeout=3000)
     chk.inconclusive_if(chk.counters.get("finished_calls", 0) < 500, "too few finished() notifications observed")
